@@ -27,6 +27,7 @@ PLAN = {
     'thorough': dict(cases=4000, budget_s=900, case_timeout=600, min_cases=666),
 }
 CLASSES = ['empty', 'uniform_consistent', 'zero_queries', 'ordinary', 'ordinary', 'boundary', 'single_attr', 'precise']
+# every fourth case runs on an engine that already made a (warm-start or not) call; see gen_case
 ITERS = [1, 2, 3, 10, 100, 1000]
 
 
@@ -76,7 +77,11 @@ def gen_case(rng, tier, idx):
         if len(cells) < n_of(t):
             zeros = {tuple(t): cells}
     iters = int(gen.pick(rng, ITERS)) if cls != 'precise' else int(gen.pick(rng, [1, 1, 2, 3, 10, 100]))
-    return dict(attrs=attrs, shape=shape, cls=cls, meas=meas, solver=solver, iters=iters, total=total,
+    prior = None
+    if idx % 4 == 1:
+        pm, _ = measure.gen_measurements(rng, attrs, shape, 1, 3, N=max(1.0, total), min_cells=2, max_cells=64)
+        prior = dict(meas=pm, warm_start=bool(rng.rand() < 0.7), solver=gen.pick(rng, ['MD', 'RDA', 'IG']), iters=int(gen.pick(rng, [10, 100])))
+    return dict(attrs=attrs, shape=shape, cls=cls, meas=meas, solver=solver, iters=iters, total=total, prior=prior,
                 zeros=zeros, give_total=bool(rng.rand() < 0.8 or cls in ('empty', 'zero_queries')),
                 np_seed=int(rng.randint(2 ** 31)))
 
@@ -86,7 +91,7 @@ def describe(case):
         from .. import mechrun
         return dict(cls=case['cls'], mechanism=case['mech'], attrs=case['attrs'], shape=case['shape'], records=int(case['rows'].shape[0]), iteration_cap=case['iters'])
     return dict(attrs=case['attrs'], shape=case['shape'], cls=case['cls'], solver=case['solver'], iters=case['iters'],
-                total=case['total'] if case['give_total'] else None, zeros=case['zeros'],
+                total=case['total'] if case['give_total'] else None, zeros=case['zeros'], engine_history=(None if case.get('prior') is None else dict(warm_start=case['prior']['warm_start'], solver=case['prior']['solver'])),
                 measurements=[dict(proj=list(m['proj']), kind=m['kind'], sigma=m['sigma']) for m in case['meas']])
 
 
@@ -177,7 +182,15 @@ def run_case(case, ctx):
     ctx.tag('iters:%d' % case['iters'])
     ctx.tag('zeros:%s' % (case['zeros'] is not None))
     np.random.seed(case['np_seed'] % (2 ** 32))
-    eng, model = estim.estimate(dom, tuples, case['total'] if case['give_total'] else None, solver, case['iters'], zeros=case['zeros'])
+    engine = None
+    if case.get('prior') is not None:
+        # the engine has a history: an earlier fit whose parameters a warm start carries over
+        pr = case['prior']
+        engine, _m0 = estim.estimate(dom, measure.as_tuples(pr['meas']), case['total'], pr['solver'], pr['iters'], zeros=case['zeros'],
+                                     warm_start=pr['warm_start'])
+        ctx.tag('engine_history:warm_start=%s' % pr['warm_start'])
+    eng, model = estim.estimate(dom, tuples, case['total'] if case['give_total'] else None, solver, case['iters'], zeros=case['zeros'],
+                                engine=engine)
     judge_model(ctx, model, attrs, shape)
 
 
